@@ -1,4 +1,5 @@
 import MxV.Model.Mfull
+import MxV.Core.MaxCount
 /-! # Negative witnesses on the full matcher model
 
 `Mfull` is total (fuel-carrying structural recursion), so the kernel can run it. For the content
@@ -120,5 +121,29 @@ def wC12 (spec p : Particle) (w : List Nat) : Bool :=
        | some ob => ob.required != some [] || ob.ordered.map (·.map (nameOf r.2.2)) != some arr
        | none => false)
   | _ => false
+
+/-- C07 fails: every child of the history is accepted, yet some name now occurs more often than in any word of the
+    schema's content model (`Particle.maxCount`), so no completion to a schema-valid element exists -/
+def wC07 (spec p : Particle) (ops : List Op) : Bool :=
+  let r := runObs p ops
+  let names := ops.filterMap fun op => match op with
+    | .add _ n _ => some n
+    | _ => none
+  ops.all (fun op => match op with | .add _ _ _ => true | _ => false) && r.1.all (· == true) &&
+    names.any fun n => match spec.maxCount n with
+      | some b => decide (b < occ_ n names)
+      | none => false
+
+/-- what a `true` answer of `wC07` means for the schema: whatever is added, the children never become a word of the content model -/
+theorem wC07_sound {spec p : Particle} {ops : List Op} (h : wC07 spec p ops = true) :
+    ∀ w : List Nat, (∀ x, occ_ x (ops.filterMap fun op => match op with | .add _ n _ => some n | _ => none) ≤ occ_ x w) →
+      ¬ spec.Lang w := by
+  simp only [wC07, Bool.and_eq_true, List.any_eq_true] at h
+  obtain ⟨_, n, _, hn⟩ := h
+  cases hb : spec.maxCount n with
+  | none => simp [hb] at hn
+  | some b =>
+    simp only [hb, decide_eq_true_eq] at hn
+    exact Particle.not_completable hb hn
 
 end Mfull
